@@ -61,7 +61,7 @@ def TermEncoder.encode_literal (lex : String) (language : Option String) (dataty
   let mut literal__ : PLit := {}
   let mut datatype_entry_id : Option Nat := default
   let mut term_rows : List Row := default
-  let mut dt_index : Option Nat := none
+  let mut datatype_id : Option Nat := none
   term_rows := ([] : List Row)
   if ((optStrTruthy datatype) && (datatype != some ("http://www.w3.org/2001/XMLSchema#string"))) then
     if ((← get).datatypes.lookup.maxSize == 0) then
@@ -69,12 +69,12 @@ def TermEncoder.encode_literal (lex : String) (language : Option String) (dataty
     datatype_entry_id := (← zoom (·.datatypes) (fun s v => { s with datatypes := v }) (LookupEncoder.encode_entry_index (← liftE (optGet datatype))))
     if (datatype_entry_id).isSome then
       term_rows := [Row.dtEntry (← liftE (optGet datatype_entry_id)) (← liftE (optGet datatype))]
-    dt_index := (some (← zoom (·.datatypes) (fun s v => { s with datatypes := v }) (LookupEncoder.encode_datatype_term_index (← liftE (optGet datatype)))))
+    datatype_id := (some (← zoom (·.datatypes) (fun s v => { s with datatypes := v }) (LookupEncoder.encode_datatype_term_index (← liftE (optGet datatype)))))
   literal__ := { literal__ with lex := lex }
   if (optStrTruthy language) then
     literal__ := PLit.setLang literal__ (← liftE (optGet language))
-  if (optNatTruthy dt_index) then
-    literal__ := PLit.setDt literal__ (← liftE (optGet dt_index))
+  if (optNatTruthy datatype_id) then
+    literal__ := PLit.setDt literal__ (← liftE (optGet datatype_id))
   return (term_rows, literal__)
 
 end Jelly.Gen
